@@ -18,4 +18,5 @@ INIT Init
 NEXT Next
 VIEW view
 INVARIANTS TypeOK RootIsCommitment HeadReads RecRootZeroOrAccurate OneLayout Resumable NeverLost
+PROPERTIES RestartIsNoOp
 CHECK_DEADLOCK FALSE
